@@ -222,6 +222,46 @@ def _specs():
     return out
 
 
+def _twin_prelude(ctx, text):
+    """History: the atom with its operands exchanged (a separately parsed object that compares equal to the atom
+    under test for the library) is evaluated first at the very values the monitor is going to use.  Outcomes are
+    ignored here (C03 decides them); what matters is that nothing it leaves behind changes the atom under test."""
+    import re
+
+    from dep_logic.markers import parse_marker
+
+    m = re.fullmatch(r'(\w+) (==|!=|<=|>=|<|>|~=) "([^"]+)"', text)
+    m2 = re.fullmatch(r'"([^"]+)" (==|!=|<=|>=|<|>|~=) (\w+)', text)
+    if m:
+        twin = f'"{m.group(3)}" {m.group(2)} {m.group(1)}'
+        name, value = m.group(1), m.group(3)
+    elif m2:
+        twin = f'{m2.group(3)} {m2.group(2)} "{m2.group(1)}"'
+        name, value = m2.group(3), m2.group(1)
+    else:
+        return
+    with MM.oracle():
+        try:
+            tw = parse_marker(twin)
+        except Exception:  # noqa: BLE001
+            return
+        seen = set()
+        for X, Y, Z in grid_for([value]):
+            env = {"python_version": f"{X}.{Y}", "python_full_version": f"{X}.{Y}.{Z}"}
+            key = env[name]
+            if key in seen:
+                continue
+            seen.add(key)
+            try:
+                MM.ev(tw, env)
+            except CaseTimeout:
+                raise
+            except Exception:  # noqa: BLE001
+                pass
+    bump("orientation-twin-prelude")
+    ctx.shape("history:orientation twin evaluated first")
+
+
 def run(ctx):
     if ctx.shard == 0:  # the repository's own pinned examples as one more workload (outcomes ignored)
         from ..repotests import run_repo_tests
@@ -237,6 +277,7 @@ def run(ctx):
             ctx.cases += 1
             ctx.current_case = {"kind": "atom", "text": t}
             m = parse_marker(t)
+            _twin_prelude(ctx, t)
             try:
                 m._specifier = None
                 m.specifier
@@ -340,6 +381,7 @@ def replay(ctx, case):
     if k == "atom":
         ctx.stratum = "pyin"
         m = parse_marker(case["text"])
+        _twin_prelude(ctx, case["text"])
         m._specifier = None
         m.specifier
     elif k == "spec":
